@@ -332,6 +332,8 @@ var replayN int
 func exec(op string) string {
 	w := strings.Fields(op)
 	replayN++
+	atomic.StoreInt64(&failures, 0) // every replayed line stands alone
+	atomic.StoreInt64(&tieStalls, 0)
 	label := fmt.Sprintf("r%d", replayN)
 	switch w[0] {
 	case "poolobs", "debrace", "sessclose":
